@@ -5,6 +5,7 @@ import Cfdp.Model.Codec.Pdu
 import Cfdp.Model.Udp
 import Cfdp.Model.Recv
 import Cfdp.Model.Send
+import Cfdp.Model.Daemon
 
 /-!
 Line-protocol driver: executes the model's definitions on the op lines produced by the Rust
@@ -443,6 +444,34 @@ def fsStep (st : DState) (toks : List String) : DState × String :=
     | _, _, _ => (st, "bad-op")
   | _ => (st, "bad-op")
 
+def parseHdr (t : String) : Option Daemon.Hdr :=
+  match t.splitOn ":" with
+  | [d, a, b, c] =>
+    match a.toNat?, b.toNat?, c.toNat? with
+    | some src, some seq, some dst =>
+      if d == "R" then some { dir := .toReceiver, src, seq, dst }
+      else if d == "S" then some { dir := .toSender, src, seq, dst } else none
+    | _, _, _ => none
+  | _ => none
+
+def tidLe (a b : Nat × Nat) : Bool := a.1 < b.1 || (a.1 == b.1 && a.2 ≤ b.2)
+
+/-- `daemon route <entity> <peers csv> <headers csv | ->`: the receive transactions `forward_pdu` spawns -/
+def daemonStep (toks : List String) : String :=
+  match toks with
+  | ["new"] => "ok"
+  | ["route", e, peers, hs] =>
+    match e.toNat? with
+    | some ent =>
+      let ps := (peers.splitOn ",").filterMap String.toNat?
+      let hdrs := if hs == "-" then [] else (hs.splitOn ",").filterMap parseHdr
+      let d : Daemon.DState := { entity := ent, peers := ps }
+      let d' := Daemon.run d (hdrs.map Daemon.Op.pdu)
+      let ids := (d'.spawned.eraseDups.toArray.qsort (fun a b => tidLe a b && a != b)).toList
+      "spawned=[" ++ ",".intercalate (ids.map (fun k => s!"{k.1}.{k.2}")) ++ "]"
+    | none => "bad-op"
+  | _ => "bad-op"
+
 def step (st : DState) (line : String) : DState × String :=
   match (line.splitOn " ").filter (· ≠ "") with
   | "seg" :: rest => segStep st rest
@@ -451,6 +480,7 @@ def step (st : DState) (line : String) : DState × String :=
   | "codec" :: rest => (st, codecStep rest)
   | "udp" :: rest => udpStep st rest
   | "fs" :: rest => fsStep st rest
+  | "daemon" :: rest => (st, daemonStep rest)
   | "recv" :: rest => recvStep st rest
   | "send" :: rest => sendStep st rest
   | _ => (st, "bad-op")
